@@ -251,7 +251,7 @@ FlushCore(s0, fk) ==      \* s0 has a transaction; returns R(state, ret)
       dbl == \/ \E i, j \in 1..Len(switchers) : i # j /\ sA.pk[switchers[i]] = sA.pk[switchers[j]]
              \* a switching object that was persistent before (back to transient by rollback / make_transient: no attribute history) takes
              \* the row over without a full UPDATE (none at all, or located by its former key): outside this model, exploration stops
-             \/ \E i \in 1..Len(switchers) : sA.cv[switchers[i]] = NoHist
+             \/ \E i \in 1..Len(switchers) : ~VChanged(sA, switchers[i])
       switched == {sA.imap[sA.pk[o]] : o \in Range(switchers)}         \* their delete is cancelled (remove_state_actions)
       U == DirtySet(sA)
       updq == switchers \o SeqOfKeys(sA, {o \in U : VChanged(sA, o) \/ PkChanged(sA, o)})
